@@ -189,7 +189,7 @@ func TestVerif_C41_agreement(t *testing.T) {
 		{proto: new(transactions.SignedTxn)},
 		{proto: new(transactions.SignedTxnInBlock), hostile: nests, thoroughOnly: true},
 		{proto: new(transactions.SignedTxnWithAD), hostile: nests, thoroughOnly: true},
-		{proto: new(transactions.ApplyData), hostile: nests, thoroughOnly: true},
+		{proto: new(transactions.ApplyData), thoroughOnly: true},
 		{proto: new(transactions.EvalDelta), thoroughOnly: true},
 		{proto: new(transactions.LogicSig)},
 		{proto: new(transactions.Payset), thoroughOnly: true},
